@@ -11,14 +11,21 @@ SCRIPT = "pysmt.smtlib.script.SmtLibScript"
 IFACE = ["add_assertion", "solve", "push", "pop", "reset_assertions"]
 
 EXPLANATION = (
-    "Static analysis: get_last_formula saves, restores and clears the same set of state variables "
-    "in its push / pop / reset-assertions branches, each saved length truncates the list it was "
-    "taken from and both loops run `levels` times (R1); IncrementalTrackingSolver.push records "
-    "`levels` backtrack points taken after _push and pop pops `levels` points and truncates (R2); "
-    "every concrete solver class decorates each assertion-stack method it implements with "
-    "@clear_pending_pop, and is_sat arms the deferred pop only on the push path (R3, decorator "
-    "discipline over all solver classes in the package).")
-NOT_DECIDED = ["goal semantics beyond the truncation pairing of R1"]
+    "Abstract interpretation against an executable reference model of the SMT-LIB assertion stack.  Scripts: "
+    "for every command sequence up to a bounded length over assert (2 formulas) | push 0/1/2 | pop 0/1/2 | "
+    "reset-assertions | maximize | minimize | assert-soft (two ids, default and explicit weight) a "
+    "SmtLibScript is built through the interpreted API and get_last_formula(return_optimizations=True) is "
+    "interpreted: the formula must be the conjunction of the live assertions and the goals exactly the live "
+    "objectives, soft clauses grouped by id and popped with their level (R1).  Incremental solvers: the real "
+    "Solver / IncrementalTrackingSolver code and the real clear_pending_pop decorator are interpreted over a "
+    "probe back-end (analysis-side class that models the native stack and logs what each solve sees); for "
+    "every API sequence up to the bound over assert | push 0/1/2 | pop 0/1/2 | reset | solve | solve under "
+    "assumptions | is_sat | is_valid | is_unsat, each solve sees exactly the live assertions (+ the one-shot "
+    "formula), solver.assertions equals the live list at the end and, in a second pass, after every step, and "
+    "the shortcuts return the truth the back-end's answer implies (R2).  Every concrete solver class of the "
+    "package decorates each assertion-stack method it implements with @clear_pending_pop (R3).")
+NOT_DECIDED = ["sequences longer than the bound (3 in the quick tier, 4 in the thorough tier)",
+               "native solver bindings behind the converters (not installed; the probe stands for them)"]
 
 
 def _trivial_body(f):
@@ -56,167 +63,37 @@ def run(ctx):
                                "every Solver subclass in pysmt/solvers, pysmt/smtlib/solver.py, pysmt/optimization"]
 
     if ctx.want("R1"):
-        rs = ctx.rule("R1", "get_last_formula: push/pop/reset handle the same state, levels times")
-        cls, fn = repo.method(SCRIPT, "get_last_formula")
-        # branches by command
-        branches = {}
-        for n in ast.walk(fn):
-            if isinstance(n, ast.If) and isinstance(n.test, ast.Compare) and norm(n.test.left) == "cmd.name" \
-                    and len(n.test.comparators) == 1:
-                branches[norm(n.test.comparators[0]).split(".")[-1]] = n
-        for need in ("PUSH", "POP", "RESET_ASSERTIONS", "ASSERT"):
-            if need not in branches:
-                ctx.error("R1", "branch for %s not found in get_last_formula" % need)
-        if all(k in branches for k in ("PUSH", "POP", "RESET_ASSERTIONS")):
-            push, pop, reset = branches["PUSH"], branches["POP"], branches["RESET_ASSERTIONS"]
-            # loops
-            def level_loop(br, what):
-                loops = [s for s in br.body if isinstance(s, ast.For)]
-                if len(loops) != 1:
-                    rs.unrec("%s branch: expected exactly one loop" % what)
-                    return None
-                lp = loops[0]
-                if norm(lp.iter) == "range(cmd.args[0])":
-                    rs.ok({"branch": what, "loop": norm(lp.iter)})
-                else:
-                    ctx.finding(rs, "%s.get_last_formula|%s-loop" % (SCRIPT, what),
-                                "%s branch iterates %s, not once per level (range(cmd.args[0]))"
-                                % (what, norm(lp.iter)), method_loc(repo, cls, lp))
-                return lp
-            lpush, lpop = level_loop(push, "push"), level_loop(pop, "pop")
-            saved = {}
-            if lpush is not None:
-                for c in calls_in(lpush):
-                    if attr_tail(c) == "append" and isinstance(c.func.value, ast.Name) and len(c.args) == 1 \
-                            and isinstance(c.args[0], ast.Call) and attr_tail(c.args[0]) == "len":
-                        saved[c.func.value.id] = norm(c.args[0].args[0])
-            restored = {}
-            if lpop is not None:
-                stmts = list(lpop.body)
-                for i, s in enumerate(stmts):
-                    if isinstance(s, ast.Assign) and isinstance(s.value, ast.Call) and attr_tail(s.value) == "pop" \
-                            and isinstance(s.value.func.value, ast.Name) and isinstance(s.targets[0], ast.Name):
-                        var = s.targets[0].id
-                        bt = s.value.func.value.id
-                        # next statement truncates
-                        if i + 1 < len(stmts) and isinstance(stmts[i + 1], ast.Assign):
-                            t = stmts[i + 1]
-                            tv = t.value
-                            if isinstance(tv, ast.Subscript) and isinstance(tv.slice, ast.Slice) and \
-                                    tv.slice.upper is not None and norm(tv.slice.upper) == var and \
-                                    (tv.slice.lower is None or norm(tv.slice.lower) == "0") and \
-                                    norm(t.targets[0]) == norm(tv.value):
-                                restored[bt] = norm(tv.value)
-                            else:
-                                restored[bt] = "?" + norm(t)
-            for bt, lst in sorted(saved.items()):
-                if bt not in restored:
-                    ctx.finding(rs, "%s.get_last_formula|saved-not-restored|%s" % (SCRIPT, bt),
-                                "push saves len(%s) into %s but pop never restores from it" % (lst, bt),
-                                method_loc(repo, cls, push))
-                elif restored[bt] != lst:
-                    ctx.finding(rs, "%s.get_last_formula|restore-mismatch|%s" % (SCRIPT, bt),
-                                "length saved from %s is used to truncate %s" % (lst, restored[bt]),
-                                method_loc(repo, cls, pop))
-                else:
-                    rs.ok({"saved": "len(%s) -> %s" % (lst, bt), "restored": "%s = %s[:l]" % (lst, lst)})
-            for bt in sorted(set(restored) - set(saved)):
-                ctx.finding(rs, "%s.get_last_formula|restored-not-saved|%s" % (SCRIPT, bt),
-                            "pop restores from %s which push never fills" % bt, method_loc(repo, cls, pop))
-            # reset clears every state variable initialised before the loop
-            init = []
-            for s in fn.body:
-                if isinstance(s, ast.For):
-                    break
-                if isinstance(s, (ast.Assign, ast.AnnAssign)):
-                    t = s.targets[0] if isinstance(s, ast.Assign) else s.target
-                    if isinstance(t, ast.Name) and isinstance(s.value, (ast.List, ast.Dict, ast.Call)):
-                        init.append(t.id)
-            cleared = [s.targets[0].id for s in reset.body if isinstance(s, ast.Assign) and isinstance(s.targets[0], ast.Name)]
-            for v in init:
-                if v in cleared:
-                    rs.ok({"reset_clears": v})
-                else:
-                    ctx.finding(rs, "%s.get_last_formula|reset-keeps|%s" % (SCRIPT, v),
-                                "reset-assertions does not clear '%s'" % v, method_loc(repo, cls, reset))
-            # assert pushes on the stack list that is returned
-            a = branches.get("ASSERT")
-            apps = [c for c in calls_in(a) if attr_tail(c) == "append"] if a else []
-            if apps and norm(apps[0]) == "stack.append(cmd.args[0])":
-                rs.ok({"assert": norm(apps[0])})
+        rs = ctx.rule("R1", "script replay: get_last_formula (with goals) against the reference assertion stack, all command sequences up to the bound")
+        from . import solver_deep as sd
+        res = sd.script_results(repo, ctx.tier)
+        ctx.analysed["command_sequences"] = len(res)
+        for seq, kind, problems in res:
+            name = " ; ".join(sd.S_NAMES[x] for x in seq)
+            if kind == "ok":
+                rs.ok({"script": name})
+            elif kind == "unsupported":
+                rs.unrec("%s: %s" % (name, problems[0][:160]))
+            elif kind == "raise":
+                ctx.finding(rs, "script|%s|raises" % name, "script [%s]: get_last_formula raises %s" % (name, problems[0]),
+                            "pysmt/smtlib/script.py")
             else:
-                rs.unrec("assert branch: %s" % [norm(x) for x in apps])
-        ctx.floor(rs, 6)
+                ctx.finding(rs, "script|%s" % name, "script [%s]: %s" % (name, problems[0]), "pysmt/smtlib/script.py")
+        ctx.floor(rs, 1500)
 
     if ctx.want("R2"):
-        rs = ctx.rule("R2", "IncrementalTrackingSolver push/pop/reset bookkeeping")
-        cls, push = repo.method(ITS, "push")
-        cls, pop = repo.method(ITS, "pop")
-        # push
-        cfg = CFG(push)
-        und = [n for n in cfg.nodes if n.ast is not None and n.kind == "stmt" and any(attr_tail(c) == "_push" for c in calls_in(n.ast))]
-        lens = [n for n in cfg.nodes if n.ast is not None and n.kind == "stmt" and "len(self._assertion_stack)" in norm(n.ast)]
-        if und and lens and all(cfg.dominated_by(l.id, lambda n: n.id == und[0].id) for l in lens):
-            rs.ok({"push": "stack length read after _push (which clears a pending pop)"})
-        else:
-            ctx.finding(rs, "%s.push|point-before-_push" % ITS,
-                        "the backtrack point is read before _push has run: a pending pop is not yet applied, "
-                        "the recorded length includes the one-shot assertion", method_loc(repo, ITS, push))
-        loops = [n for n in ast.walk(push) if isinstance(n, ast.For)]
-        if len(loops) == 1 and norm(loops[0].iter) == "range(levels)" and \
-                any(attr_tail(c) == "append" and "_backtrack_points" in norm(c.func) for c in calls_in(loops[0])):
-            rs.ok({"push": "appends a backtrack point per level"})
-        else:
-            ctx.finding(rs, "%s.push|levels" % ITS, "push does not record one backtrack point per level",
-                        method_loc(repo, ITS, push))
-        lv = [c for c in calls_in(push) if attr_tail(c) == "_push"]
-        if lv and ("levels" in norm(lv[0])):
-            rs.ok({"push": norm(lv[0])})
-        else:
-            ctx.finding(rs, "%s.push|levels-not-forwarded" % ITS, "_push is not given `levels`", method_loc(repo, ITS, push))
-        # pop
-        loops = [n for n in ast.walk(pop) if isinstance(n, ast.For)]
-        okp = False
-        if len(loops) == 1 and norm(loops[0].iter) == "range(levels)":
-            b = loops[0].body
-            if len(b) == 2 and isinstance(b[0], ast.Assign) and norm(b[0].value) == "self._backtrack_points.pop()" and \
-                    isinstance(b[1], ast.Assign) and norm(b[1].targets[0]) == "self._assertion_stack":
-                var = norm(b[0].targets[0])
-                if norm(b[1].value) in ("self._assertion_stack[0:%s]" % var, "self._assertion_stack[:%s]" % var):
-                    okp = True
-        if okp:
-            rs.ok({"pop": "pops a point and truncates per level"})
-        else:
-            ctx.finding(rs, "%s.pop|levels" % ITS, "pop does not pop one backtrack point and truncate per level",
-                        method_loc(repo, ITS, pop))
-        lv = [c for c in calls_in(pop) if attr_tail(c) == "_pop"]
-        if lv and ("levels" in norm(lv[0])):
-            rs.ok({"pop": norm(lv[0])})
-        else:
-            ctx.finding(rs, "%s.pop|levels-not-forwarded" % ITS, "_pop is not given `levels`", method_loc(repo, ITS, pop))
-        cls, rst = repo.method(ITS, "reset_assertions")
-        if any(isinstance(s, ast.Assign) and norm(s.targets[0]) == "self._assertion_stack" and norm(s.value) in ("[]", "list()")
-               for s in rst.body):
-            rs.ok({"reset_assertions": "empties the assertion list"})
-        else:
-            ctx.finding(rs, "%s.reset_assertions|keeps" % ITS, "reset_assertions does not empty the assertion list",
-                        method_loc(repo, ITS, rst))
-        cls, add = repo.method(ITS, "add_assertion")
-        apps = [c for c in calls_in(add) if attr_tail(c) == "append" and "_assertion_stack" in norm(c.func)]
-        if len(apps) == 1:
-            rs.ok({"add_assertion": norm(apps[0])})
-        else:
-            ctx.finding(rs, "%s.add_assertion|tracking" % ITS, "add_assertion does not append exactly once to the assertion list",
-                        method_loc(repo, ITS, add))
-        # `assertions` property must clear the pending pop before exposing the list
-        cls, prop = repo.method(ITS, "assertions")
-        if _has_decorator(prop, "clear_pending_pop"):
-            rs.ok({"assertions": "@clear_pending_pop"})
-        else:
-            ctx.finding(rs, "%s.assertions|undecorated" % ITS,
-                        "the assertions property exposes the list without applying a pending pop",
-                        method_loc(repo, ITS, prop))
-        ctx.floor(rs, 7)
+        rs = ctx.rule("R2", "incremental solver: every solve sees exactly the live assertions, one-shot queries leave the list as found, all API sequences up to the bound")
+        from . import solver_deep as sd
+        res = sd.its_results(repo, ctx.tier)
+        ctx.analysed["api_sequences"] = len(res)
+        for seq, kind, problems in res:
+            name = " ; ".join(sd.NAMES[x] for x in seq)
+            if kind == "ok":
+                rs.ok({"sequence": name})
+            elif kind == "unsupported":
+                rs.unrec("%s: %s" % (name, problems[0][:160]))
+            else:
+                ctx.finding(rs, "api|%s" % name, "after [%s]: %s" % (name, problems[0]), "pysmt/solvers/solver.py")
+        ctx.floor(rs, 1500)
 
     if ctx.want("R3"):
         rs = ctx.rule("R3", "deferred-pop discipline: stack methods of concrete solvers are decorated")
@@ -242,45 +119,4 @@ def run(ctx):
                                     "is_sat()/is_valid() the one-shot assertion is still in the native solver when this "
                                     "runs" % (q.split(".")[-1], nm), method_loc(repo, q, f))
         ctx.analysed["concrete_solver_classes"] = concrete
-        # IncrementalTrackingSolver public methods: first effect is the decorated _method
-        for nm in ("add_assertion", "push", "pop", "reset_assertions"):
-            cls, f = repo.method(ITS, nm)
-            first = None
-            for st in f.body:
-                if isinstance(st, ast.Expr) and isinstance(st.value, ast.Constant):
-                    continue
-                first = st
-                break
-            if first is not None and any(attr_tail(c) == "_" + nm for c in calls_in(first)):
-                rs.ok({"class": "IncrementalTrackingSolver", "method": nm, "first_effect": "self._%s(...)" % nm})
-            else:
-                ctx.finding(rs, "%s.%s|bookkeeping-before-hook" % (ITS, nm),
-                            "%s touches the tracking lists before calling the decorated _%s" % (nm, nm),
-                            method_loc(repo, ITS, f))
-        # is_sat arms pending_pop only after a successful push
-        cls, f = repo.method(SOLVER, "is_sat")
-        par = parents(f)
-        arms = [n for n in ast.walk(f) if isinstance(n, ast.Assign) and norm(n.targets[0]) == "self.pending_pop"
-                and isinstance(n.value, ast.Constant) and n.value.value is True]
-        if len(arms) != 1:
-            rs.unrec("is_sat: pending_pop arming not unique (%d)" % len(arms))
-        else:
-            cfg = CFG(f)
-            node = [n for n in cfg.nodes if n.ast is arms[0]][0]
-            pushn = lambda n: n.ast is not None and n.kind == "stmt" and any(attr_tail(c) == "push" for c in calls_in(n.ast))
-            q = par.get(arms[0])
-            in_else = isinstance(q, ast.If) and arms[0] in q.orelse and "use_solving_under_assumption" in norm(q.test)
-            if cfg.dominated_by(node.id, pushn, follow=normal_only) and in_else:
-                rs.ok({"is_sat": "pending_pop armed on the push path only"})
-            else:
-                ctx.finding(rs, "%s.is_sat|arming" % SOLVER,
-                            "pending_pop is armed on a path without a successful push()", method_loc(repo, cls, arms[0]))
-        # the decorator itself
-        m, dec = repo.function("pysmt.decorators.clear_pending_pop")
-        txt = norm(dec)
-        if "if self.pending_pop:" in txt and "self.pending_pop = False" in txt and "self.pop()" in txt and \
-                txt.index("self.pending_pop = False") < txt.index("self.pop()"):
-            rs.ok({"clear_pending_pop": "clears the flag, then pops, then runs the method"})
-        else:
-            rs.unrec("clear_pending_pop body not in recognised form")
         ctx.floor(rs, 40)
